@@ -20,7 +20,7 @@ CFG = {
         "eq false after one-element difference": r"^eq .*=> false",
     },
     "gaps": ["producer table: proved rows = every C01 mutator (C01_step), C02 binary operations (C02_all_forms), see evidence of C06/C09/C17 for decoders, multi-ops and from_lsb0_bytes",
-             "RoaringTreemap (64-bit) canonical form"],
+             "64-bit producer table: the treemap mutators/operations are proved well-formed only as far as C10/C11 go (see their evidence); the rest is covered by the C04T producer x producer runs"],
     "level_text": "Canonical-form theorem (Lean 4, kernel-checked): two well-formed model values with the same elements are identical, hence `==`, serialized bytes and serialized_size agree for every pair of histories whose producers are proved to return well-formed values; producers without a theorem yet and the tie to the Rust code are covered by producer x producer differential runs.",
     "level_note": "Trusted: Lean kernel; model mirrors code (checked on generated cases only); `Bitmap.eq` as the model of the derived PartialEq/Store::eq; clone/clone_from are identity in the model (std Clone trusted).",
 }
